@@ -163,7 +163,7 @@ def show_format(v):
 def state(w):
     insps = list(w._inspectors)
     per = ','.join('%s:%s:%s' % (i.NAME, q(lambda: i.complete), q(lambda: i.format_match)) for i in insps)
-    return '%s|%s|%s' % (show_formats(q(lambda: w.formats)), show_format(q(lambda: w.format)), per)
+    return '%s|%s|%s|%s' % (show_formats(q(lambda: w.formats)), show_format(q(lambda: w.format)), per, 'True' if w._finished else 'False')
 
 def run_wrap(c):
     fi = _fi()
@@ -418,7 +418,7 @@ def overlay_specs(rng, tier):
                    'iso': rng.choice(imgbuild.ISO_IDENTS).hex(), 'late': late, 'pl': rng.random() < 0.3}, n, 'overlay:%d' % len(cmb)
 
 def valid_specs(rng, tier):
-    per = 6 if tier == 'quick' else 60
+    per = 6 if tier == 'quick' else 40
     for fmt in FORMATS:
         for _ in range(per if fmt != 'vhdx' else max(3, per // 2)):
             spec = {'g': 'valid', 'fmt': fmt, 'seed': rng.randrange(10**6)}
@@ -471,7 +471,7 @@ def targeted(rng, tier):
             yield mk_case(rng, d, n, 'mbr', style=rng.choice(['detect', 'one', 'cuts']), allowed=rng.choice([None, None, ['gpt', 'raw'], ['vdi', 'gpt']]), exp=None, kind='f')
 
 def gen_cases(rng, tier):
-    reps = 1 if tier == 'quick' else 3
+    reps = 3 if tier == 'quick' else 4
     for spec, n, lab in overlay_specs(rng, tier):
         for _ in range(reps):
             yield mk_case(rng, spec, n, lab)
@@ -495,6 +495,12 @@ def gen_cases(rng, tier):
         if rng.random() < (0.5 if tier == 'quick' else 1.0): dets.append((spec, lab))
     for spec, lab in dets:
         yield {'op': 'detect', 'd': spec, 'k': 'detect:' + lab}
+    # decisions reached INSIDE the 4096-byte read loop (every inspector complete before EOF): early return, and
+    # ImageFormatError raised by wrapper.format inside the loop (the finally clause must still close and finish)
+    P = lambda off, b: [off, bytes(b).hex()]
+    for p in ([P(0, b'QFI\xfb'), P(510, b'\x55\xaa')], [P(0, b'conectix')], [P(0x40, struct.pack('<I', 0xbeda107f)), P(32769, b'CD001')], []):
+        for n in (262144, 262145, 300000):
+            yield {'op': 'detect', 'd': {'g': 'patch', 'n': n, 'bg': 'z', 'p': p}, 'k': 'detect:in-loop'}
 
 def classify(c, io_):
     if io_.startswith('HARNESS'): return 'harness-error'
@@ -529,5 +535,16 @@ TRUSTED = ['the shared inspector model coq/Model/Insp_*.v (tied by the C01 corre
 ASSUMPTIONS = ['the iteration order of the Python set of inspectors is modelled as a list; every theorem holds for every order, the correspondence picks one per case',
                'the order in which formats evaluates format_match over the set matters only for WHICH exception escapes when several queries raise; none raises in a reachable state (C03_queries_total)',
                'allowed_formats=[] (like None) means all formats (DESIGN O2); names are compared with ==']
-LEVEL_TEXT = 'see notes/C03.md'
-LEVEL_NOTE = 'see notes/C03.md'
+LEVEL_TEXT = ('Proved (Coq, unbounded: all contents, all read-size sequences, all expected_format / allowed_formats) on the model = generic InspectWrapper model '
+              '(C06) instantiated with the ten concrete inspectors (C01 model): (1) queries_total: in every reachable state of every inspector format_match returns '
+              '(complete is total) - the statement D2 broke; hence format / formats / detect_file_format with the RAISING queries coincide with the boolean ones and '
+              'yield a result or ImageFormatError, nothing else, on every wrapper reachable by any call sequence; (2) after read-through and close, format = f (not raw) '
+              'implies the declarative signature predicate of f on the content (all ten formats; for the eight static ones format_match IS the predicate; vmdk: KDMV or the '
+              'F1 text zone); no other allowed non-raw inspector matches; two matching inspectors (two static signatures in the content) => ImageFormatError; raw only when '
+              'allowed and nothing else matches, never with others; a non-empty allowed_formats restricts the inspectors and every reported format; [] means all; '
+              '(3) decision_stable: a non-None format after some reads is not revised by ANY further reads nor by close() - per inspector (all ten, vhdx and vmdk without any '
+              'zone hypothesis): complete at a chunk boundary => every further chunk leaves regions and attributes untouched; (4) C01 wrapper verdict: static slots = spec_state(content), '
+              'whole wrapper a function of the content when only static formats are allowed.  Content-level clauses are stated for runs in which every chunk was delivered.')
+LEVEL_NOTE = ('Trusted: Coq kernel; the shared inspector model (tied by the C01 every-chunk correspondence) and the generic wrapper model (C06), whose composition is tied here to the '
+              'real InspectWrapper / detect_file_format after every call; generators gen_insp / gen_C06 (fail-closed); the Python set of inspectors modelled as a list (every theorem '
+              'holds for every order); tools/imgbuild.signature_present as the oracle\'s reading of "signature present".  Closed under the global context.')
